@@ -43,6 +43,7 @@ _HELP = _("Generate an SPDX bill of materials.")
 @click.option(
     "--add-licence-concluded",
     "add_license_concluded",
+    is_flag=True,
     hidden=True,
 )
 @click.option(
